@@ -3,3 +3,7 @@
 #[cfg(any(verif_all, verif_c21))]
 #[path = "/verif/harness/ntpd/c21.rs"]
 mod c21;
+// --- lead: C16 daemon side (the real serve loop on a loopback socket)
+#[cfg(any(verif_all, verif_c16))]
+#[path = "/verif/harness/ntpd/c16.rs"]
+mod c16;
